@@ -11,6 +11,7 @@ import subprocess
 import sys
 import time
 import traceback
+import zlib
 from dataclasses import dataclass, field
 
 from . import core
@@ -19,6 +20,8 @@ from .source import ReplaySource, SymSource
 
 VERIF = os.path.dirname(os.path.dirname(os.path.abspath(__file__)))
 EXIT_OK, EXIT_VIOLATION, EXIT_INCONCLUSIVE = 0, 1, 3
+# evidence/ and evidence/replays/; overridden only when several scratch copies are checked side by side
+EVDIR = os.environ.get("VERIF_EVIDENCE_DIR") or os.path.join(VERIF, "evidence")
 
 
 @dataclass
@@ -40,6 +43,8 @@ class Harness:
     note: str = ""
     parallel: bool = True
     symbolic_vars: str = ""  # human description of the symbolic variables and their domains
+    xcheck: int = -1  # per path: how many of z3's unsat verdicts on assertions are re-decided by cvc5 (-1: policy)
+    xcheck_every: int = 1  # ... on one path in `xcheck_every` (chosen by a hash of the decision prefix)
 
 
 _REG: dict[str, Harness] = {}
@@ -61,6 +66,7 @@ def _new_acc():
         "samples": [],
         "notes": [],
         "max_depth": 0,
+        "x": {"agree": 0, "cvc5_unknown": 0, "cvc5_error": 0, "disagree": 0, "cvc5_s": 0.0},
     }
 
 
@@ -73,6 +79,8 @@ def _merge(a, b):
     for k, v in b["q"].items():
         a["q"][k] = a["q"].get(k, 0) + v
     a["solver_s"] += b["solver_s"]
+    for k, v in b["x"].items():
+        a["x"][k] += v
     a["violations"].extend(b["violations"])
     del a["violations"][50:]
     a["samples"].extend(b["samples"])
@@ -83,6 +91,8 @@ def _merge(a, b):
 def run_path(h: Harness, prefix, twin: bool, acc, want_sample: bool):
     ctx = core.Ctx(prefix, timeout_ms=h.solver_timeout_ms)
     core.CTX = ctx
+    if not twin and h.xcheck > 0 and zlib.crc32(repr(prefix).encode()) % max(1, h.xcheck_every) == 0:
+        ctx.xcheck = h.xcheck
     src = SymSource(ctx, twin)
     status = "ok"
     try:
@@ -117,6 +127,8 @@ def run_path(h: Harness, prefix, twin: bool, acc, want_sample: bool):
     for k, v in ctx.q.items():
         acc["q"][k] = acc["q"].get(k, 0) + v
     acc["solver_s"] += ctx.solver_s
+    for k, v in ctx.xstats.items():
+        acc["x"][k] += v
     acc["checks"] += ctx.checks
     acc["sym_checks"] += ctx.sym_checks
     acc["max_depth"] = max(acc["max_depth"], len(ctx.trace))
@@ -233,7 +245,7 @@ def explore(h: Harness, twin=False, workers=16, max_paths=None, max_seconds=None
 
 
 def write_replay(prop, tier, h: Harness, v: dict, n: int) -> str:
-    d = os.path.join(VERIF, "evidence", "replays")
+    d = os.path.join(EVDIR, "replays")
     os.makedirs(d, exist_ok=True)
     path = os.path.join(d, f"{prop}-{h.name}-{n}.json")
     with open(path, "w") as f:
@@ -276,7 +288,7 @@ def replay_file(path: str) -> dict:
 
 def replay_subprocess(path: str, timeout=300) -> dict:
     env = dict(os.environ)
-    env["PYTHONPATH"] = VERIF
+    env["PYTHONPATH"] = VERIF + os.pathsep + os.environ.get("VERIF_REPO", "/repo")
     env["PYTHONHASHSEED"] = "0"
     try:
         p = subprocess.run(
@@ -357,9 +369,20 @@ def run_check(prop: str, tier: str, harness_filter=None, workers=None) -> int:
     if harness_filter:
         hs = [h for h in hs if h.name in harness_filter]
     for h in hs:
+        # second-solver policy: kernels re-decide (up to 8 per path) every unsat verdict with cvc5; unit
+        # harnesses re-decide 2 verdicts on a deterministic sample of paths (1/32 quick, 1/4 thorough)
+        if h.xcheck < 0:
+            if os.environ.get("VERIF_XCHECK"):
+                h.xcheck, h.xcheck_every = int(os.environ["VERIF_XCHECK"]), 1
+            elif h.shape == "K":
+                h.xcheck, h.xcheck_every = 8, 1
+            elif h.shape == "U":
+                h.xcheck, h.xcheck_every = 2, (32 if tier == "quick" else 4)
+            else:
+                h.xcheck = 0
         _REG[h.name] = h
     known = load_known()
-    rdir = os.path.join(VERIF, "evidence", "replays")
+    rdir = os.path.join(EVDIR, "replays")
     if os.path.isdir(rdir) and not harness_filter:
         for fn in os.listdir(rdir):
             if fn.startswith(prop + "-"):
@@ -407,6 +430,13 @@ def run_check(prop: str, tier: str, harness_filter=None, workers=None) -> int:
                 inconclusive.append(f"{h.name}: engine unsupported: {res['unsupported'][0]}")
             if res["q"].get("unknown", 0):
                 entry["solver_unknown"] = res["q"]["unknown"]
+            if h.xcheck > 0:
+                x = dict(res["x"])
+                x["policy"] = f"up to {h.xcheck} unsat verdicts per path on 1 path in {h.xcheck_every}"
+                x["cvc5_s"] = round(x["cvc5_s"], 2)
+                entry["second_solver_cvc5"] = x
+            if res["notes"]:
+                entry["engine_notes"] = sorted(set(res["notes"]))[:5]
             und = [n for n in res["notes"] if n.startswith("unknown on check")]
             if und:
                 inconclusive.append(f"{h.name}: {und[0]}")
@@ -514,8 +544,10 @@ def run_check(prop: str, tier: str, harness_filter=None, workers=None) -> int:
         "wall_s": round(time.time() - t_start, 2),
         "violations": len(violations_out),
     }
-    os.makedirs(os.path.join(VERIF, "evidence"), exist_ok=True)
-    with open(os.path.join(VERIF, "evidence", f"{prop}.json"), "w") as f:
+    # the engine self-test is not a property: its report does not go to evidence/
+    edir = os.path.join(VERIF, "selftest") if prop == "ENGINE" else EVDIR
+    os.makedirs(edir, exist_ok=True)
+    with open(os.path.join(edir, f"{prop}.json"), "w") as f:
         json.dump(ev, f, indent=1, default=str)
 
     printed = set()
@@ -532,6 +564,8 @@ def run_check(prop: str, tier: str, harness_filter=None, workers=None) -> int:
             f"solver={e['solver_s']}s wall={e['wall_s']}s exhaustive={e['exhaustive_within_bounds']} "
             f"asserts={e['assertions_discharged']}/{e['assertions_symbolic']}sym "
             f"twin={'n/a' if not tw else ('caught' if tw['violated'] else 'MISSED')}"
+            + (" cvc5[agree={agree} unknown={cvc5_unknown} error={cvc5_error} disagree={disagree} {cvc5_s}s]".format(
+                **e["second_solver_cvc5"]) if "second_solver_cvc5" in e else "")
         )
     if violations_out:
         for name, v, p in violations_out:
